@@ -42,6 +42,11 @@ WIDE = [
       "impl Clone for A { }", "impl Ord for A { }", "impl<T> Clone for S<T> where T: Ord, T: Clone { }"],
      ["exists<T> { WellFormed(S<T>) }", "exists<T> { T: Ord }", "forall<T> { if (T: Ord) { S<T>: Clone } }", "exists<T> { S<T>: Clone }",
       "forall<T> { if (FromEnv(S<T>)) { T: Clone } }"]),
+    # explicit positive / negative impls of an auto trait: the reversed order puts the impls BEFORE the
+    # `#[auto] trait` item (item ids are handed out in declaration order)
+    (["#[auto] trait Send { }", "struct S { }", "struct P { }", "struct A { }", "struct W { s: S }", "struct V<T> { t: T, p: P }",
+      "impl !Send for S { }", "impl Send for P where A: Send { }", "impl<T> Send for V<T> where T: Send { }"],
+     ["S: Send", "W: Send", "A: Send", "P: Send", "V<S>: Send", "V<A>: Send", "exists<T> { V<T>: Send }", "(A, W): Send"]),
 ]
 
 
@@ -311,7 +316,7 @@ def run(ctx):
     wfams = []
     for items, goals in WIDE:
         f = Fam(None, None, goals, "wide")
-        f.variants = [" ".join(items)]
+        f.variants = [" ".join(items), " ".join(reversed(items))]
         for _ in range(ctx.n(3, 12)):
             x = list(items)
             rng.shuffle(x)
